@@ -11,6 +11,7 @@ mod engines {
 	pub mod encoding;
 	pub mod transcode;
 	pub mod input;
+	pub mod json;
 	pub mod tomlorder;
 }
 mod props {
@@ -86,6 +87,10 @@ fn main() {
 				engines::input::run(&mut out, &mut rng.fork(), thorough);
 				props::c09::run(&mut out, &mut rng.fork(), thorough);
 			}
+			// Development entry for the JSON model slice (not a property id).
+			"JSONDEV" => {
+				engines::json::run(&mut out, &mut rng.fork(), thorough);
+			}
 			_ => {
 				eprintln!("unknown property {prop}");
 				std::process::exit(3);
@@ -125,6 +130,8 @@ fn main() {
 		let inputs: Vec<_> = args[5].split('/').map(|h| (util::unhex(h).expect("hex"), supply.clone(), from)).collect();
 		let (results, out) = xtapi::translate_many(&inputs, to);
 		println!("results={results:?}\noutput={}\ntext={:?}", util::hex(&out), String::from_utf8_lossy(&out));
+		return;
+	}
 	if args.len() >= 2 && args[1] == "probe-transient" {
 		props::c09::probe_transient();
 		return;
